@@ -12,7 +12,7 @@ structure RRange where
   fileName : Bool
   off : Nat
   len : Nat
-  deriving Repr, DecidableEq, BEq
+  deriving Repr, DecidableEq
 
 def RRange.stop (r : RRange) : Nat := r.off + r.len
 
@@ -33,6 +33,18 @@ def orderedDisjoint : List RRange → Bool
   | [] => true
   | [_] => true
   | a :: b :: r => decide (a.stop ≤ b.off) && decide (a.off < b.off || (a.off == b.off && a.len == 0)) && orderedDisjoint (b :: r)
+
+def candsAsRanges (l : List Cand) : List RRange := l.map fun c => ⟨c.fileName, c.off, c.sz⟩
+
+/-- what the statement demands of the candidates `out` gathered for a document from the matches `collected` of the
+    visited atoms: file-name matches first, each kind in increasing offset order without overlap, every one of them a
+    match of a visited atom (or the whole-name fallback when nothing was collected) -/
+def checkGather (name : Bytes) (collected out : List Cand) : Bool :=
+  let src := if collected.isEmpty then [⟨true, 0, name.length⟩] else collected
+  orderedDisjoint (candsAsRanges (out.filter (·.fileName))) &&
+  orderedDisjoint (candsAsRanges (out.filter (!·.fileName))) &&
+  out.all (fun c => decide (c ∈ src)) &&
+  isSortedCands out
 
 /-- `r` is a maximal newline-free piece of `[lo, hi)`: it lies inside, contains no '\n', and each of its two ends
     is an end of `[lo, hi)` or is adjacent to a '\n' byte of `[lo, hi)` -/
@@ -77,7 +89,7 @@ inductive QKind where
   | multi                    -- several atoms: only the general clauses
   | substr (pat : Bytes)     -- one case-sensitive content substring
   | occs                     -- one content substring whose occurrences are given (case-insensitive): `cands` = all occurrences
-  | regexp                   -- one content regular expression: `cands` = the engine's matches
+  | regexp (engine : List (Nat × Nat))  -- one content regular expression; `engine` = the regexp engine's matches (off, len)
   deriving Repr
 
 /-- the content ranges the single-atom clauses demand -/
@@ -96,7 +108,9 @@ def checkP (data name : Bytes) (lineMode : Bool) (kind : QKind) (cands : List Ca
   let content := all.filter (fun r => !r.fileName)
   inside data name all &&
   groups.all orderedDisjoint && orderedDisjoint content &&
-  all.all (matchedByAtom data lineMode cands) &&
+  -- (a file that matches without any text atom contributing a match — e.g. a pure filter query, or atoms only below
+  --  `type:file` — is reported with the whole file name as its one range: the documented fallback of gatherMatches)
+  all.all (fun r => matchedByAtom data lineMode cands r || (cands.isEmpty && r == ⟨true, 0, name.length⟩)) &&
   (match kind with
    | .multi => true
    | .substr pat =>
@@ -106,9 +120,8 @@ def checkP (data name : Bytes) (lineMode : Bool) (kind : QKind) (cands : List Ca
    | .occs =>
      content.map (fun r => (r.off, r.len)) ==
        expectedSingle data lineMode (greedyFrom 0 (cands.filter (fun c => !c.fileName) |>.map fun c => (c.off, c.sz)))
-   | .regexp =>
-     let ms := (cands.filter (fun c => !c.fileName && c.sz > 0)).map fun c => (c.off, c.sz)
+   | .regexp engine =>
      coverMask data.length ((content.filter (fun r => r.len > 0)).map fun r => (r.off, r.len)) ==
-       coverMask data.length (expectedSingle data lineMode ms))
+       coverMask data.length (expectedSingle data lineMode (engine.filter (fun m => m.2 > 0))))
 
 end ZoektModel.C02
